@@ -71,7 +71,7 @@ def specs(ctx, n):
     out = []
     alphabet = [-2.0, -1.0, -0.5, 0.0, 0.5, 1.0, 2.0]
     for i in range(n):
-        name = names[i % len(names)]
+        name = gen.rotate(names, i, ctx.quick)
         space, meta = gen.gen_space(rng, sizes=(2, 3, 5, 8), max_points=200)
         table, _ = gen.gen_table(rng, space)
         n_iter = rng.choice([1, 2, 3, 5, 8, 12, 15])
